@@ -32,16 +32,16 @@ CLAIMED = {
             'Trusted: the typed-field serialiser and the length-marker record walker in harness/camx.py (they know field types, not formats), TLC. Scope: nine formats in one layout grammar - gridded uamiv (AVERAGE/EMISSIONS, 1-3 species with names of 1-10 characters, grids up to 3x2x2, 1-3 hourly steps, seven start instants incl. year ends 1999/2011/2069, leap days, the 1970 pivot, both end-of-day spellings), one3d, humidity, vertical diffusivity, temperature, height/pressure (grids up to 3x2x2 / 1x2x3, 1-3 steps, three starts), wind (two- and three-word time records, grids of at least 4 cells, 1-3 and 7 steps), cloud/rain (5 and 3 variables) and lateral boundary (1-3 species, grids of at least 2x2). Land use is not modelled (DESIGN.md I.2); data are integer tokens, arbitrary float payloads only through the byte-identity clause.',
             'layout model + write/read/rewrite traces validated'),
     'C07': ('5/C07, 3.6',
-            'spec/NcStore.tla models the fill-value mechanism (disk fill precedence, data fill, netCDF4 auto-masking) - NcStore_MC checks that the mask survives for all 27 combinations of missing_value/fill_value/_FillValue under the specified data fill and exhibits the losing combination under the attribute-first deviation - and defines StoreDiff, the field-by-field meaning of "reproduces" (dimension names/order/lengths/unlimited flags, global attributes, variable names/order/dtype/dimension tuples, masks, bit-identical unmasked values, variable attributes modulo _FillValue on masked variables). Generated files (11 dtypes incl. char, unsigned and 64-bit; unmasked/partly/fully masked; every fill-attribute combination, with 0 as a fill value in a third of the masked cases; scalar/1-D/2-D/3-D; unlimited none/first/not first; str/int/float/array attributes; float payloads with -0.0 and denormals) are saved in all four flavours with and without compression, closed, reopened with format named and by auto-detection (one process per case) and validated by NcStore_Trace; a save may raise only when a dtype is not representable in the flavour.',
+            'spec/NcStore.tla models the fill-value mechanism (disk fill precedence, data fill, netCDF4 auto-masking) - NcStore_MC checks that the mask survives for all 27 combinations of missing_value/fill_value/_FillValue under the specified data fill and exhibits the losing combination under the attribute-first deviation - and defines StoreDiff, the field-by-field meaning of "reproduces" (dimension names/order/lengths/unlimited flags, global attributes, variable names/order/dtype/dimension tuples, masks, bit-identical unmasked values, variable attributes modulo _FillValue on masked variables). Generated files (11 dtypes incl. char, unsigned and 64-bit; unmasked/partly/fully masked; every fill-attribute combination, with 0 as a fill value in a third of the masked cases; two unlimited dimensions in NETCDF4; scalar/1-D/2-D/3-D; unlimited none/first/not first; str/int/float/array attributes; float payloads with -0.0 and denormals) are saved in all four flavours with and without compression, closed, reopened with format named and by auto-detection (one process per case) and validated by NcStore_Trace; a save may raise only when a dtype is not representable in the flavour.',
             'Trusted: the exact (hex) projection, netCDF4/HDF5 themselves. Excluded by construction: unmasked values equal to a fill value, unlimited dimensions used by no variable (netCDF stores no length for them), bool attributes (not a netCDF type). HDF5 internals / compression ratios out of reach.',
             'fill-mechanism model checking + save/reopen traces validated'),
     'C19': ('5/C19, 3.8',
-            'spec/Icartt.tla states the FFI-1001 line layout as a writer automaton (role and token count of every line), the reader role assignment from line index and counts, and the header arithmetic; Icartt_MC checks declared = actual counts and reader/writer role agreement for every structure (1-4 variables, 0-4 comment attributes, 1-4 records) and emits them; for each structure generated files (names, units, missing codes of 3-7 significant digits incl. the wide -9999999, a fractional and a large positive one, masks, magnitudes 1e-30..1e25, negative, zero; plus larger random structures) are written with ncf2ffi1001, tokenised, read with ffi1001() and with pncopen() auto-detection, written and read a second time; Icartt_Trace checks the layout of the text, the declared header/variable counts, and equality of names, order, units, missing codes, masks and %.6e values, and that the second cycle is a fixpoint.',
+            'spec/Icartt.tla states the FFI-1001 line layout as a writer automaton (role and token count of every line), the reader role assignment from line index and counts, and the header arithmetic; Icartt_MC checks declared = actual counts and reader/writer role agreement for every structure (1-4 variables, 0-4 comment attributes, 1-4 records) and emits them; for each structure generated files (names, units, missing codes of 3-7 significant digits incl. the wide -9999999, a fractional and a large positive one, masks, magnitudes 1e-30..1e25, negative, zero; plus larger random structures) are written with ncf2ffi1001, tokenised, read with ffi1001() and with pncopen() auto-detection, written and read a second time; Icartt_Trace checks the layout of the text, the declared header/variable counts, and equality of names, order, units, missing codes, masks and %.6e values, and that the second cycle is a fixpoint; in half of the cases the written text is given scale factors other than 1 (powers of two) and read, rewritten and re-read: values must be raw x factor, once, in both cycles.',
             'Trusted: line tokenisation (split on commas), %.6e rendering as the seven-significant-digit comparison. Comment attribute values are single-line strings (a value containing a newline breaks the declared header count: not exercised, noted in DESIGN.md). LLOD/ULOD flag handling not covered.',
             'structure enumeration + write/read traces validated'),
     'C20': ('5/C20, 3.8',
             'spec/ArlPack.tla transcribes the packing definition in exact integers (exponent from the largest neighbour difference, byte = trunc(diff/step + 127.5) saturating, running reconstruction); ArlPack_MC checks NoWrap, FirstExact and that the one-step bound fails only at cut-off bytes (and, with the bound as invariant, exhibits the witness of known finding C20_K1) on every field of a lattice finer than the quantisation step with differences around 2**9, and emits the fields; pack2d/unpack are run on each field and on random larger fields (other exponents, constants, up to 4x6) scaled by 2**s, s in {0,-20,20,-100,60}; ArlPack_Trace requires bytes, exponent, VAR1, checksum (mod 255) and unpack(pack(x)) to equal the model and evaluates the bound.',
-            'Trusted: integer fields times 2**s are exact in float32, so code and model must agree to the byte. Not decided: arbitrary float32 fields (rounding of LOG near powers of two, accumulated error on long rows), exponents below 7. Files (second sentence): spec/ArlLayout.tla is the record grammar (index record with grid and variable definitions incl. checksums, one labelled record per variable and level, bytes from ArlPack); ArlLayout_MC checks record sizes, counts and the packing invariants on 32 (quick) / 96 configurations (1-2 surface and layer variables, 2 or 4 levels, 1-2 times 3 or 12 h apart incl. 1999->2000, grids of 300/323 cells) and emits them; they are serialised by a fixed-width text encoder and read with arlpackedbit; Arl_Trace requires the variable lists, level list, times and every unpacked field (= running reconstruction of the packing) to equal the model. The library writer is not exercised (it raises for every input on this tree, DESIGN.md I.4), grids below the reader window are excluded (ReaderWindowFits).',
+            'Trusted: integer fields times 2**s are exact in float32, so code and model must agree to the byte. Not decided: arbitrary float32 fields (rounding of LOG near powers of two, accumulated error on long rows), exponents below 7. Files (second sentence): spec/ArlLayout.tla is the record grammar (index record with grid and variable definitions incl. checksums, one labelled record per variable and level, bytes from ArlPack); ArlLayout_MC checks record sizes, counts and the packing invariants on 32 (quick) / 96 configurations (1-2 surface and layer variables, 2 or 4 levels, 1-3 times 3 or 12 h apart (up to 24 h span) incl. 1999->2000, grids of 300/323 cells) and emits them; they are serialised by a fixed-width text encoder and read with arlpackedbit; Arl_Trace requires the variable lists, level list, times and every unpacked field (= running reconstruction of the packing) to equal the model. The library writer is not exercised (it raises for every input on this tree, DESIGN.md I.4), grids below the reader window are excluded (ReaderWindowFits).',
             'field enumeration + pack/unpack traces validated'),
     'C17': ('5/C17, 3.9',
             'spec/Interp.tla defines the exact rational weights of piecewise-linear interpolation (clamped when not extrapolating) and the layer-overlap fractions of conservative regridding; Interp_MC checks on every small grid pair (source length 2-3 quick / 2-4 thorough, both directions, targets inside/outside, shared or sub-range sigma edges) non-negativity, partition of unity, linear exactness, identity, rows-sum-to-one, thickness matching, column conservation and constant preservation, and emits the pairs; getinterpweights, sigma2coeff, interpDimension (along the middle axis of a 3-D variable) and interpSigma (linear, conserve) are run on them (plus longer random grids and single-level sources) and Interp_Trace requires rational equality with the model.',
@@ -52,7 +52,7 @@ CLAIMED = {
             'Trusted: TLC, the observation logging (warnings are captured from stderr because the library installs its own showwarning). Coordinates/probes are small integers (exact in float64). Clamping to the end cell with bounds=ignore/warn and left/right=None is accepted as documented behaviour. Datetime front-end time2idx is covered through C12 (date2num round trip) rather than here.',
             'configuration enumeration + lookup observations validated'),
     'C12': ('5/C12, 3.4',
-            'spec/Calendar.tla (civil <-> day number for standard/noleap/all_leap, YYYYJJJ, HHMMSS, unit offsets) is model-checked by Calendar_MC over every day 1900-2101 (round trip, successor-day, Julian, year-length laws); spec/TimeDecode_Trace.tla computes the expected instants of every recorded getTimes() on generated files (CF units x 15 reference spellings x 4 units x 8 calendar attributes x offsets up to 200 years incl. quarter units; TFLAG; SDATE/STIME/TSTEP; tau0; bounds=True, which must not raise where getTimes() returns) and checks date2num(getTimes()), time2idx(getTimes()) and the CF time variable synthesised from IOAPI metadata.',
+            'spec/Calendar.tla (civil <-> day number for standard/noleap/all_leap, YYYYJJJ, HHMMSS, unit offsets) is model-checked by Calendar_MC over every day 1900-2101 (round trip, successor-day, Julian, year-length laws); spec/TimeDecode_Trace.tla computes the expected instants of every recorded getTimes() on generated files (CF units x 15 reference spellings x 4 units x 8 calendar attributes x offsets up to 200 years incl. quarter units; TFLAG; SDATE/STIME/TSTEP with steps from 1 s to 744 h; tau0; bounds=True, which must not raise where getTimes() returns) and checks date2num(getTimes()), time2idx(getTimes()) and the CF time variable synthesised from IOAPI metadata.',
             'Trusted: the TLA+ calendar (proleptic Gregorian = CF standard after 1582), civil-tuple projection of datetimes. Offsets are multiples of 1/4 unit (exact in float64). 360_day/julian calendars are not claimed by the library. Known finding C12_K1 (365/366-day calendars) is reported as KNOWN-FINDING; its deviation signature excludes the sub-domain where the branch is right.',
             'calendar model checking + decode traces validated'),
     'C11': ('5/C11, 3.3',
@@ -64,11 +64,11 @@ CLAIMED = {
             'Trusted: the metadata projection (harness/ioapi_driver.py meta_of: integer attributes, VAR-LIST split in 16-character fields). Not demanded: results with NVARS=0 or an empty time axis, zipped selections (they replace the standard dimensions), operations outside the property list (renameDimension, insertDimension, removeSingleton). spec/Ioapi_MC.tla is the bounded design model of the wrappers (structural file + metadata block, every operation = core effect + the metadata rule of the wrapper): TLC checks Inv_Coherent, Inv_WellFormed and the action property WindowKeeps over all programs of depth 2 (quick) / 3 (thorough), shows for each wrapper that dropping its rule is detected, and emits every program for replay.',
             'bounded wrapper model (Inv_Coherent, sharpness per wrapper) + IOAPI program traces validated'),
     'C06': ('5/C06, 3.1',
-            'Exp_arith (13 operators, masked operands, float division by zero -> masked, integer // and % by zero -> masked as soon as one operand is a masked array and 0 for two plain arrays, coordinate pass-through), Exp_eval (expression grammar var/int/binary/where) and Exp_mask (predicate combinations, where with/without dims, coords flag) are evaluated by TLC in exact rationals on every arith/eval/mask step and compared with the logged result.',
+            'Exp_arith (13 operators, masked operands, float division by zero -> masked, integer // and % by zero -> masked as soon as one operand is a masked array and 0 for two plain arrays, non-finite operands (projected as n/0) masked under +, -, *, coordinate pass-through), Exp_eval (expression grammar var/int/binary/where) and Exp_mask (predicate combinations, where with/without dims, coords flag) are evaluated by TLC in exact rationals on every arith/eval/mask step and compared with the logged result.',
             'Trusted: TLC/SANY, the projection (harness/project.py: integers, rationals with denominator <= 100, hex otherwise), the argument conversion in harness/core_driver.py. Values are exact rationals; cells whose exact value cannot be identified from the float (denominator > 100, float32 magnitude > 2000, float32 variance, 32-bit overflow guards Dec_*) are not decided. Plotting, projections (pyproj missing) and xarray export are out of reach.',
             'arith/eval/mask traces validated'),
     'C04': ('5/C04, 3.2',
-            'Exp_stack (concatenation in argument order along the stack axis, masks included, other variables from the first file, length = sum) is evaluated by TLC on every stack step of programs that first split by slicing and then stack 2-3 files (same file twice, pieces, masked and unmasked).',
+            'Exp_stack (concatenation in argument order along the stack axis, masks included, other variables from the first file, length = sum) is evaluated by TLC on every stack step of programs that first split by slicing and then stack 2-3 files (same file twice, pieces, masked and unmasked, heterogeneous copies), through the stack method and through the module-level stack_files entry point; the stack calls of the repository tests are validated too.',
             'Trusted: TLC/SANY, the projection (harness/project.py: integers, rationals with denominator <= 100, hex otherwise), the argument conversion in harness/core_driver.py. Values are exact rationals; cells whose exact value cannot be identified from the float (denominator > 100, float32 magnitude > 2000, float32 variance, 32-bit overflow guards Dec_*) are not decided. Plotting, projections (pyproj missing) and xarray export are out of reach.',
             'stack traces validated against ConcatArr'),
     'C03': ('5/C03, 3.1',
@@ -80,7 +80,7 @@ CLAIMED = {
             'Trusted: TLC/SANY, the projection (harness/project.py: integers, rationals with denominator <= 100, hex otherwise), the argument conversion in harness/core_driver.py. Values are exact rationals; cells whose exact value cannot be identified from the float (denominator > 100, float32 magnitude > 2000, float32 variance, 32-bit overflow guards Dec_*) are not decided. Plotting, projections (pyproj missing) and xarray export are out of reach.',
             'slice traces validated against Ortho/Zip'),
     'C01': ('5/C01, 3.2',
-            'Recorded executions of seeded random programs (depth 2-4 over templates T1-T5: differing dimension subsets, masked variables, coordinate variables, length-1 and unlimited dimensions, unlimited not first) through copy/slice/apply/stack/subset/rename/insert/remove/reorder/mask/eval/arithmetic are validated by spec/PncCore_Trace.tla: every returned file must satisfy WellFormed (PncCore.tla), surviving dimensions keep the unlimited flag, and a call whose arguments satisfy the documented-domain predicate Dom_X must complete.',
+            'Recorded executions of seeded random programs (depth 2-4 over templates T1-T5 and the 4-D T7: differing dimension subsets, masked variables, coordinate variables, length-1 and unlimited dimensions, unlimited not first) through copy/slice/apply/stack/subset/rename (variables, one or several dimensions)/insert/remove/reorder/mask/eval/arithmetic, the programs emitted by the bounded PncCore_MC model, and the 107 calls the repository test suite itself makes on PseudoNetCDFFile objects (recorded by harness/recorder_plugin.py, a pytest plugin that wraps the methods from outside) are validated by spec/PncCore_Trace.tla: every returned file must satisfy WellFormed (PncCore.tla), surviving dimensions keep the unlimited flag, and a call whose arguments satisfy the documented-domain predicate Dom_X must complete.',
             'Trusted: TLC/SANY, the projection (harness/project.py: integers, rationals with denominator <= 100, hex otherwise), the argument conversion in harness/core_driver.py. Values are exact rationals; cells whose exact value cannot be identified from the float (denominator > 100, float32 magnitude > 2000, float32 variance, 32-bit overflow guards Dec_*) are not decided. Plotting, projections (pyproj missing) and xarray export are out of reach.',
             'program traces validated against PncCore'),
     'C05': ('5/C05, 3.6',
